@@ -5,45 +5,53 @@ the property's quick check against it."""
 import sys, os, json, subprocess, shutil, glob
 prop, src, name = sys.argv[1:4]
 env = dict(os.environ, GOFLAGS='-mod=mod', GOPROXY='off')
-wt = '/tmp/confirm_wt'
+wt = os.environ.get('CONFIRM_WT', '/tmp/confirm_wt')
 def sh(cmd, cwd=None):
     p = subprocess.run(cmd, shell=True, cwd=cwd, env=env, stdout=subprocess.PIPE, stderr=subprocess.STDOUT, text=True)
     return p.returncode, p.stdout
-sh('git -C /repo worktree remove --force %s' % wt)
-rc, out = sh('git -C /repo worktree add -q %s HEAD' % wt)
-assert rc == 0, out
-try:
+SKIP = bool(os.environ.get('SKIP_CONFIRM'))   # the confirmation was done by an earlier CONFIRM_ONLY run
+if SKIP:
     meta = json.load(open(os.path.join(src, 'meta.json')))
     demos = [f for f in os.listdir(src) if f.endswith('_test.go')]
-    place = meta.get('demo_placement', '').split(' ')[0].strip()
-    rc, out = sh('git apply %s/patch.diff' % src, wt); assert rc == 0, 'patch does not apply: ' + out
-    rc_build, out = sh('go build ./... && go build -tags verif ./...', wt)
-    rc_suite, out_suite = sh('go test -vet=off -count=1 ./... 2>&1 | grep -v "no test files" | grep -v "^ok" | head -20', wt)
-    rc_s2, out_s2 = sh('go test -vet=off -count=1 ./... 2>&1 | grep -v "no test files" | grep -v "^ok" | head -20', os.path.join(wt, 'cmd/rdfkit'))
-    out_suite += out_s2
-    suite_ok = rc_build == 0 and out_suite.strip() == ''
-    dst = os.path.join(wt, place)
-    if os.path.isdir(dst) or place.endswith('/'):
-        dst = os.path.join(dst, demos[0])
-    shutil.copyfile(os.path.join(src, demos[0]), dst)
-    rel = os.path.dirname(os.path.relpath(dst, wt))
-    modroot = wt
-    for sub in ('cmd/rdfkit', 'examples'):
-        if rel.startswith(sub + '/') or rel == sub:
-            modroot = os.path.join(wt, sub); rel = rel[len(sub):].lstrip('/')
-    pkg = './' + rel + '/'
-    run = r"-run 'Demo|demo|Seed|Mut|ZZ|Zz' " if False else ''
-    rc_with, out_with = sh('go test -vet=off -count=1 %s 2>&1 | tail -15' % pkg, modroot)
-    fail_with = 'FAIL' in out_with
-    sh('git apply -R %s/patch.diff' % src, wt)
-    rc_wo, out_wo = sh('go test -vet=off -count=1 %s 2>&1 | tail -5' % pkg, modroot)
-    pass_wo = 'FAIL' not in out_wo and 'ok' in out_wo
-    print('suite_ok=%s demo_fails_with=%s demo_passes_without=%s' % (suite_ok, fail_with, pass_wo))
-    if not suite_ok: print(out_suite[-800:])
-    if not (suite_ok and fail_with and pass_wo):
-        print('NOT KEPT'); sys.exit(1)
-finally:
-    sh('git -C /repo worktree remove --force %s' % wt)
+    pkg = './' + os.path.dirname(meta.get('demo_placement', '').split(' ')[0].strip()) + '/'
+if not SKIP:
+  sh('git -C /repo worktree remove --force %s' % wt)
+  rc, out = sh('git -C /repo worktree add -q %s HEAD' % wt)
+  assert rc == 0, out
+  try:
+      meta = json.load(open(os.path.join(src, 'meta.json')))
+      demos = [f for f in os.listdir(src) if f.endswith('_test.go')]
+      place = meta.get('demo_placement', '').split(' ')[0].strip()
+      rc, out = sh('git apply %s/patch.diff' % src, wt); assert rc == 0, 'patch does not apply: ' + out
+      rc_build, out = sh('go build ./... && go build -tags verif ./...', wt)
+      rc_suite, out_suite = sh('go test -vet=off -count=1 ./... 2>&1 | grep -v "no test files" | grep -v "^ok" | head -20', wt)
+      rc_s2, out_s2 = sh('go test -vet=off -count=1 ./... 2>&1 | grep -v "no test files" | grep -v "^ok" | head -20', os.path.join(wt, 'cmd/rdfkit'))
+      out_suite += out_s2
+      suite_ok = rc_build == 0 and out_suite.strip() == ''
+      dst = os.path.join(wt, place)
+      if os.path.isdir(dst) or place.endswith('/'):
+          dst = os.path.join(dst, demos[0])
+      shutil.copyfile(os.path.join(src, demos[0]), dst)
+      rel = os.path.dirname(os.path.relpath(dst, wt))
+      modroot = wt
+      for sub in ('cmd/rdfkit', 'examples'):
+          if rel.startswith(sub + '/') or rel == sub:
+              modroot = os.path.join(wt, sub); rel = rel[len(sub):].lstrip('/')
+      pkg = './' + rel + '/'
+      run = r"-run 'Demo|demo|Seed|Mut|ZZ|Zz' " if False else ''
+      rc_with, out_with = sh('go test -vet=off -count=1 %s 2>&1 | tail -15' % pkg, modroot)
+      fail_with = 'FAIL' in out_with
+      sh('git apply -R %s/patch.diff' % src, wt)
+      rc_wo, out_wo = sh('go test -vet=off -count=1 %s 2>&1 | tail -5' % pkg, modroot)
+      pass_wo = 'FAIL' not in out_wo and 'ok' in out_wo
+      print('suite_ok=%s demo_fails_with=%s demo_passes_without=%s' % (suite_ok, fail_with, pass_wo))
+      if not suite_ok: print(out_suite[-800:])
+      if not (suite_ok and fail_with and pass_wo):
+          print('NOT KEPT'); sys.exit(1)
+  finally:
+      sh('git -C /repo worktree remove --force %s' % wt)
+if os.environ.get('CONFIRM_ONLY'):
+    print('CONFIRMED %s (check not run)' % src); sys.exit(0)
 # run our check
 rc, out = sh('/verif/lib/seedtest.sh %s %s' % (prop, src), '/verif')
 detected = 'DETECTED' in out
